@@ -164,6 +164,9 @@ pub fn inputs_of_base(plan: &Plan, b: u64, corpus: &[(String, Vec<u8>)]) -> Vec<
                 if hostile::MODEL_OPS[op] == "nested_groups" && (b % 8 != 0 || r > 0) {
                     continue; // expensive input: one in eight bases
                 }
+                if hostile::MODEL_OPS[op] == "palette_colliding_keys" && (r > 0 || b != 5 || plan.mode == Mode::Mem) {
+                    continue; // a 16-megapixel cel: once per run
+                }
                 if hostile::MODEL_OPS[op] == "tileset_strip_height_u32" && (!thorough || r > 0 || b != 3 || plan.mode != Mode::Walk) {
                     continue; // 4 GiB of pixel data: once per thorough run, where accessors are walked
                 }
@@ -398,7 +401,7 @@ pub fn worker_main(ctx: &Ctx, a: WorkerArgs) -> i32 {
                 let start = if first_base { a.resume_sub } else { 0 };
                 first_base = false;
                 for (s, input) in inputs.iter().enumerate().skip(start as usize) {
-                    if sub_sample > 1 && s != 0 && ((s as u64 + b) % sub_sample != 0 || input.operator == "model:tilemap_extent_i32" || input.operator == "model:tileset_strip_height_u32") {
+                    if sub_sample > 1 && s != 0 && ((s as u64 + b) % sub_sample != 0 || input.operator == "model:tilemap_extent_i32" || input.operator == "model:tileset_strip_height_u32" || input.operator == "model:palette_colliding_keys") {
                         // (the unoptimised build needs minutes per rendering of a 2^31-pixel tilemap extent)
                         continue;
                     }
